@@ -334,6 +334,9 @@ def identity_keys(repo, f):
                 if isinstance(op, (ast.Is, ast.IsNot)):
                     if any(isinstance(x, ast.Constant) for x in (a, b)):
                         continue
+                    # `X.ltype is SO3_type`: the ltype of a tensor is a type object (a module-level singleton), not tensor contents
+                    if any(isinstance(x, ast.Attribute) and x.attr in ('ltype', 'dtype', 'device', 'layout', '__class__') for x in (a, b)):
+                        continue
                     if (tensorish(a) and stateish(b)) or (tensorish(b) and stateish(a)):
                         out.append((n, 'object identity (`%s`)' % src(n)[:50]))
         elif isinstance(n, ast.Call):
